@@ -116,6 +116,7 @@ func c01GenCaseForTable(r *vc.Rand, name string, t *atTable) *atCase {
 	c.Feat["pk"] = t.PKKind
 	ngroups := 1 + r.Intn(3)
 	seq := 0
+	var revisit []int
 	for g := 0; g < ngroups; g++ {
 		grp := atGroup{Explicit: r.Intn(3) == 0}
 		ns := 1
@@ -130,14 +131,35 @@ func c01GenCaseForTable(r *vc.Rand, name string, t *atTable) *atCase {
 			case 2:
 				grp.Stmts = append(grp.Stmts, atGenDelete(r, t, o))
 			case 3:
+				o.shuffleCols = r.Bool()
 				grp.Stmts = append(grp.Stmts, atGenInsert(r, t, o, 1, &seq))
+				if t.PKKind != "autoinc" && r.Bool() {
+					// the row just inserted is written again by another statement form (same or next local transaction)
+					revisit = append(revisit, seq)
+				}
 			case 4:
+				o.shuffleCols = r.Bool()
 				grp.Stmts = append(grp.Stmts, atGenInsert(r, t, o, 2+r.Intn(2), &seq))
 			case 5:
-				grp.Stmts = append(grp.Stmts, atGenUpsert(r, t, o, r.Bool(), &seq))
+				if r.Intn(3) == 0 {
+					grp.Stmts = append(grp.Stmts, atGenUpsertMulti(r, t, o, &seq))
+				} else {
+					grp.Stmts = append(grp.Stmts, atGenUpsert(r, t, o, r.Bool(), &seq))
+				}
 			}
 		}
 		c.Groups = append(c.Groups, grp)
+		for _, sq := range revisit {
+			w, wargs := pkWhere(t, atInsertedRow(t, sq), true)
+			vc0 := t.valueCols()[0]
+			st := atStmt{Kind: "update", Table: t.Name, SQL: fmt.Sprintf("update %s set %s = ? where %s", t.Name, t.Def.Cols[vc0].Name, w),
+				Args: append([]tval{tvOf(atColKinds[t.Kinds[vc0]].gen(r))}, wargs...), Feat: map[string]string{"stmt": "update", "params": "true", "rows": "1", "where": "pk-eq", "revisits": "inserted-row"}}
+			if r.Bool() {
+				st = atStmt{Kind: "delete", Table: t.Name, SQL: fmt.Sprintf("delete from %s where %s", t.Name, w), Args: wargs, Feat: map[string]string{"stmt": "delete", "params": "true", "rows": "1", "where": "pk-eq", "revisits": "inserted-row"}}
+			}
+			c.Groups = append(c.Groups, atGroup{Stmts: []atStmt{st}})
+		}
+		revisit = nil
 	}
 	c.DDL = []string{describeTable(t)}
 	c.fold()
@@ -226,7 +248,7 @@ func c03SelectForUpdate(r *vc.Run) {
 		n = v
 	}
 	for i := 0; i < n; i++ {
-		pk := []string{"int", "composite", "varchar", "composite3", "binary"}[rnd.Intn(5)]
+		pk := []string{"int", "composite", "varchar", "composite3", "binary", "composite_txt"}[rnd.Intn(6)]
 		t := atGenTable(rnd, fmt.Sprintf("s%04dt", i), pk, atSafeKinds, 2, 3+rnd.Intn(3), false)
 		d := *t.Def
 		db.E.CreateTable(&d)
